@@ -339,7 +339,171 @@ def check_C18(chk):
     chk.assumptions += ["the relay transport (DNS + Internet) is not exercised; the local UDP port is chosen by the harness and substituted for LocalPort"]
 
 
+# ----------------------------------------------------------------------------- text (LfsText)
+def _cls(c):
+    if c == 94: return "^"
+    if c == 56: return "8"
+    if 48 <= c <= 57: return "d"
+    if c in (76, 71, 67, 69, 84, 66, 74, 83, 75, 72): return "M"
+    if c in (118, 97, 99, 100, 115, 113, 116, 108, 114, 104): return "e"
+    if c in (124, 42, 58, 92, 47, 63, 34, 60, 62, 35): return "r"
+    if c == 0: return "0"
+    if c < 128: return "a"
+    if c < 256: return "l"
+    return "u"
+
+
+def _sig(seq, limit=24):
+    out = []
+    for c in seq or []:
+        x = _cls(c)
+        if not out or out[-1] != x or x in "^M8":
+            out.append(x)
+    return "".join(out)[:limit]
+
+
+def text_event_key(ev):
+    t = ev.get("ev")
+    if t == "Field":
+        le, n = len(ev.get("enc", [])), ev.get("n", 0)
+        rel = "lt" if le < n - 1 else ("n-1" if le == n - 1 else ("eq" if le == n else "gt"))
+        return f"Field:{ev.get('kind')}.{ev.get('name')}:{ev.get('rule')}:{ev.get('flavour')}:len{rel}:mod{le % 4}"
+    if t == "FieldDec":
+        return f"FieldDec:{ev.get('kind')}.{ev.get('name')}"
+    if t == "CpDec":
+        b = ev.get("in", [])
+        return "CpDec:" + "".join("^" if x == 94 else ("M" if x in (76, 71, 67, 69, 84, 66, 74, 83, 75, 72) else ("8" if x == 56 else ("h" if x >= 128 else "a"))) for x in b)[:16] + (":" + chr(b[1]) if len(b) > 1 and b[0] == 94 else "")
+    if t == "Panic":
+        return f"Panic:{ev.get('fn')}:{_sig(ev.get('in') if isinstance(ev.get('in'), list) and all(isinstance(x, int) for x in ev.get('in')) else [])}"
+    return f"{t}:{_sig(ev.get('in'))}"
+
+
+def text_trace_validate(chk, name, trace_path, what, only=None, max_rounds=40):
+    """TLC validates the events with Trace_Text; on a rejection the event is recorded, every event with the same
+    class signature is set aside and validation continues, so that independent defects are all reported."""
+    lines = [l for l in open(trace_path) if l.strip()]
+    if only:
+        lines = [l for l in lines if json.loads(l).get("ev") in only]
+    total = len(lines)
+    chk.evaluations += total
+    rejected = {}
+    for rnd in range(max_rounds):
+        tp = trace_path + f".round"
+        open(tp, "w").write("".join(lines))
+        r = tlc("Trace_Text", os.path.join(SPEC, "Trace_Text.cfg"), f"{name}_r{rnd}", workers=1, env={"TRACE": tp}, timeout=1800, trace_mode=True)
+        chk.add_tlc(f"{name}_r{rnd}", r)
+        if r.ok:
+            break
+        idx, ev = r.rejected if r.rejected else (0, {})
+        if not ev:
+            raise ToolError(f"Trace_Text rejected without naming an event (see {r.out_path})")
+        key = text_event_key(ev)
+        rejected[key] = ev
+        chk.violation("text:" + key, f"{what}: not explained by the specification: {json.dumps(ev)[:500]}", {"kind": "text-trace", "events": [ev]})
+        keep = []
+        for l in lines:
+            if text_event_key(json.loads(l)) != key:
+                keep.append(l)
+        if len(keep) == len(lines):
+            keep = lines[:idx - 1] + lines[idx:]
+        lines = keep
+    else:
+        raise ToolError(f"{name}: more than {max_rounds} distinct rejections; giving up")
+    chk.traces += len(lines)
+    log(f"[trace] {name}: {total} events, {len(rejected)} distinct rejection classes, {len(lines)} accepted")
+    return rejected
+
+
+def text_vectors(chk, name, maxlen):
+    cfg = write_cfg(name, "Spec", {"MaxLen": f"= {maxlen}"})
+    r = tlc("MC_Text", cfg, name, workers=1, timeout=2400, coverage=False, env={"JAVA_TOOL_OPTIONS": "-Xss1g"})
+    if r.violated:
+        raise ToolError(f"MC_Text: {r.violated}")
+    nd = os.path.join(WORK, name + ".ndjson")
+    n = extract_emitted(r.out_path, nd, tag="TXT")
+    chk.add_tlc(name, r)
+    chk.states += n
+    chk.transitions += n
+    log(f"[tlc] {name}: {n} enumerated inputs ({r.wall:.0f}s)")
+    return nd, n
+
+
+def char_pool():
+    import re
+    s = open(os.path.join(SPEC, "LfsCodepages.tla")).read()
+    cps = set()
+    sb = s[s.index("SBHigh =="):s.index("DBPairs ==")]
+    for m in re.finditer(r"-?\d+", sb):
+        v = int(m.group())
+        if v >= 160:
+            cps.add(v)
+    db = s[s.index("DBPairs =="):s.index("LeadBytes ==")]
+    for m in re.finditer(r"<<(\d+), (\d+), (\d+)>>", db):
+        cps.add(int(m.group(3)))
+    p = os.path.join(WORK, "chars.txt")
+    open(p, "w").write(",".join(map(str, sorted(cps))))
+    return p
+
+
+def _text_check(chk, events, rule, maxlen, fields=False):
+    chk.rule = rule
+    thorough = chk.tier == "thorough"
+    pid = chk.pid.lower()
+    if fields:
+        tp = os.path.join(WORK, f"{pid}_fields.ndjson")
+        out = harness(["text-fields", "--out", tp, "--tier", chk.tier])
+        chk.extra["driver"] = json.loads(out.strip().splitlines()[-1])
+        _sample_events(chk, tp, picks=(0, 300, 1500))
+        text_trace_validate(chk, f"{pid}_fields", tp, "text field", only=events)
+        return
+    nd, n = text_vectors(chk, f"{pid}_gen", maxlen)
+    tp = os.path.join(WORK, f"{pid}_replay.ndjson")
+    harness(["text-replay", "--in", nd, "--out", tp])
+    _sample_events(chk, tp, picks=(10, 2000, 9000))
+    text_trace_validate(chk, f"{pid}_replay", tp, "input enumerated by TLC", only=events)
+    tp = os.path.join(WORK, f"{pid}_trace.ndjson")
+    out = harness(["text-trace", "--out", tp, "--seed", str(chk.seed), "--count", "20000" if thorough else "2500", "--chars", char_pool()])
+    chk.extra["driver"] = json.loads(out.strip().splitlines()[-1])
+    text_trace_validate(chk, f"{pid}_trace", tp, "random text", only=events)
+
+
+def check_C10(chk):
+    _text_check(chk, {"CpEnc", "CpDec", "Panic"},
+                "LfsText.CpDecode is LFS's reading rule over the generated Windows code page tables (complete single-byte pages, sampled "
+                "double-byte pages restricted to pairs on which sibling tables agree). TLC enumerates byte vectors (every high byte after every "
+                "single-byte marker, sampled pairs after their marker incl. trail byte 0x5E followed by marker letters, marker switches in all "
+                "orders, ^^ / ^8 / BOM-looking prefixes) and all strings up to the bound over a 13-class alphabet; to_lossy_string must equal "
+                "CpDecode on defined bytes and to_lossy_bytes is accepted by postcondition (CpDecode(bytes) = text with '?' for characters in no "
+                "page; ASCII byte for byte); random text and bytes for totality.", maxlen=4 if chk.tier == "thorough" else 3)
+    chk.assumptions += ["'LFS's tables' = Microsoft's tables as shipped in python's cp125x/cp932/cp936/cp949/cp950 codecs; double-byte pages are sampled"]
+
+
+def check_C11(chk):
+    _text_check(chk, {"Field", "FieldDec", "Panic"},
+                "For every text-bearing field of every kind (widths 6..240) texts whose encoded length runs over 0..N+2 (thorough 0..2N) in "
+                "ASCII / Latin-1 / Cyrillic (marker-introducing) / double-byte / mixed flavours, all residues mod 4: the field's byte range in the "
+                "encoded frame must satisfy FixedField / FixedFieldNul (MST MSX MSL) / VarField / VarFieldNul (MTC) of LfsText; frames with an "
+                "embedded NUL must decode to the text before it.", maxlen=0, fields=True)
+
+
+def check_C12(chk):
+    _text_check(chk, {"Esc", "Unesc", "Strip", "E2E", "Panic"},
+                "TLC enumerates all strings up to length 4 (quick) / 5 (thorough) over a 13-class alphabet (caret, digits incl. 8, escape letter, "
+                "reserved characters, code page letters, ASCII, Latin-1, Cyrillic, double-byte with 0x5E trail, in no code page) with Esc / Unesc / "
+                "Strip; the laws (Unesc o Esc = id, no raw reserved character, Strip idempotent) are checked on the model; the real escape / "
+                "unescape / strip must agree and the end-to-end path unescape(decode(encode(escape(s)))) must give back s; random longer strings.",
+                maxlen=5 if chk.tier == "thorough" else 4)
+
+
 def replay_case(case):
+    if case["kind"] == "text-trace":
+        print("text event stored in the replay file; the property's check re-records it from the same input: re-run bin/check")
+        os.makedirs(WORK, exist_ok=True)
+        tp = os.path.join(WORK, "replay_case_text.ndjson")
+        open(tp, "w").write("".join(json.dumps(e) + "\n" for e in case["events"]))
+        r = tlc("Trace_Text", os.path.join(SPEC, "Trace_Text.cfg"), "replay_case", workers=1, env={"TRACE": tp}, trace_mode=True)
+        print("accepted" if r.ok else f"rejected: {r.rejected}")
+        return 0 if r.ok else 1
     if case["kind"] == "builder-case":
         os.makedirs(WORK, exist_ok=True)
         nd = os.path.join(WORK, "replay_case_builder.ndjson")
